@@ -37,7 +37,7 @@ def run(ctx):
     for rid, text in RULES.items():
         rep.rule(rid, text, {'R-COLSEP': 12, 'R-SHAPE': 12, 'R-FORWARD': 12}[rid])
     core = ctx.repo.module('core')
-    shapes = [(), (3,), (2, 2)] if ctx.tier == 'quick' else [(), (1,), (3,), (2, 2), (2, 1, 2), (1, 3)]
+    shapes = [(), (3,), (2, 2), 'T(3, 2)'] if ctx.tier == 'quick' else [(), (1,), (3,), (2, 2), (2, 1, 2), (1, 3), 'T(3, 2)', 'T(2, 2)']
     configs = [('central', 1, 2), ('central', 2, 2), ('forward', 1, 2), ('backward', 2, 3), ('complex', 1, 2),
                ('complex', 3, 2), ('multicomplex', 1, 2), ('multicomplex', 2, 2), ('central', 0, 2)]
     if ctx.tier != 'quick':
@@ -57,7 +57,11 @@ def run(ctx):
 
 def one(ctx, core, shape, method, n, order, full_output):
     rep = ctx.rep
-    label = 'Derivative/%s/n=%d/order=%d/x.shape=%s/full_output=%s' % (method, n, order, shape, full_output)
+    transposed = isinstance(shape, str)
+    if transposed:
+        base_shape = tuple(int(v) for v in shape[2:-1].split(','))[::-1]      # a transposed (Fortran ordered) view
+        shape = base_shape[::-1]
+    label = 'Derivative/%s/n=%d/order=%d/x.shape=%s%s/full_output=%s' % (method, n, order, shape, ' (transposed view)' if isinstance(shape, str) else '', full_output)
     marker = DV({('arg', 0)}, 'f')
     kwmarker = DV({('kw', 'a')}, 'f')
     holder = {}
@@ -67,7 +71,14 @@ def one(ctx, core, shape, method, n, order, full_output):
         D = I.get_global('core', 'Derivative')
         f = bicomplex_aware(s, s.elementwise_f())
         d = D(f, method=method, n=n, order=order, full_output=full_output)
-        x = s.x_array(shape)
+        if transposed:
+            xb = s.x_array(base_shape)
+            # element identities follow the *logical* position in the transposed array
+            x = xb.transpose()
+            for c, p in enumerate(x.pos):
+                x.buf.data[p] = DV({('x', c)}, 'f', 'any', sel={('x', c)})
+        else:
+            x = s.x_array(shape)
         holder['calls'] = s.fcalls
         # a first call with other arguments: the checked call must not see anything of it
         xprev = Arr(x.shape, [DV({('x-first-call', c)}, 'f', 'any', sel={('x-first-call', c)}) for c in range(x.size)])
